@@ -72,13 +72,14 @@ CHECKS = {
          "help lookups are not consumers: OkReach shows a successful evaluation never keeps what they took); C10_help_found -- "
          "when the help flag is live in the scope the failed parser left behind the outcome is this level's help. "
          "C10_help_wins_without_subcommands / C10_help_wins_level / C10_version_wins_level (HelpWins.v): the FULL statement for "
-         "every definition (and every command level) without subcommands and adjacent groups -- all other combinators, "
-         "arbitrarily nested: the help flag as an item of its own gives this level's help WHATEVER else is missing, "
+         "every definition (and every command level) without subcommands -- all other combinators, adjacent groups (also nested "
+         "ones) included since the fix: commit 3a2639c that makes a failed group hand its caller's scope back "
+         "(C10_failed_group_gives_scope_back), arbitrarily nested: the help flag as an item of its own gives this level's help WHATEVER else is missing, "
          "duplicated or malformed (only subcommands produce a ready-made failure; the parser is total; nobody can consume the "
          "help item and the scope is kept, so the lookup finds it; a successful parse has a leftover; `remaining` is exact and "
          "not zero); likewise the version flag when a version is configured and no help flag is on the line. With subcommands the "
-         "unrestricted 'whatever else fails' statement is proved FALSE (C10_refuted_seq) and recorded as two known-finding "
-         "classes; valid lines are checked strictly by the oracle (request at every piece boundary, innermost level marker)." + DIFF,
+         "unrestricted 'whatever else fails' statement is proved FALSE (C10_refuted_seq) and recorded as one known-finding "
+         "class (a sibling field of an enclosing level fails first; the second class, an incomplete adjacent group, was repaired); valid lines are checked strictly by the oracle (request at every piece boundary, innermost level marker)." + DIFF,
          "4/C10", "Rocq proof (never-a-value from the ledger, help lookup lemma, refutation witness) over a hand-written model + differential correspondence + help-position oracle"),
  "C03": ("proof", "PARTIAL. Theorems in coq/Props/C03.v (all named *_partial): tokenisation is local, so reordering whole occurrences "
          "reorders their token groups and changes nothing else; named consumers search the whole scope and take the leftmost "
@@ -104,8 +105,9 @@ CHECKS = {
          "offsets are tried left to right and the value comes from the FIRST one at which the group parses (C19_first_start_wins, "
          "C19_starts_left_to_right), so repeating the group yields the blocks in command-line order. The member class "
          "(C19_members_inscope) covers flags, arguments, positionals and `any` under optional/many/some/count/last/fallback/"
-         "guard/parse/map/hide, construct! and alternatives. Nested "
-         "adjacent groups / commands inside groups are outside the hypothesis (tie only). Full conformance is "
+         "guard/parse/map/hide, construct! and alternatives -- and groups themselves (C19_group_is_a_member: a group keeps its "
+         "caller's scope and consumes only inside it on success, on failure and on the panic exits), so the theorems hold for "
+         "NESTED groups. Commands inside groups are outside the hypothesis (tie only). Full conformance is "
          "decided by the oracle (unique sentinels, span check, accepted block lines) and the differential run." + DIFF,
          "4/C19", "Rocq proof (block theorem by induction over the retry loop) over a hand-written model + differential correspondence + span oracle"),
  "C13": ("proof", "Theorems in coq/Props/C13.v about a transcription of splitter.rs + console.rs (characters, byte lengths, margins, "
@@ -141,7 +143,7 @@ CHECKS = {
          "src/error.rs), help/version/completion on stdout only, failures on stderr only with the non-empty `Error: ` prefix and (C11_message_not_empty) a non-empty text rendered by "
          "Message::render for every kind whose text is not the user's own, "
          "the body is reached iff a value was produced, the program name is the UTF-8 file name of argv[0]; "
-         "C11_no_request_no_stdout_partial -- for every definition without adjacent whose levels carry a default-like Info, a "
+         "C11_no_request_no_stdout_partial -- for EVERY definition (adjacent groups and commands included) whose levels carry a default-like Info, a "
          "line that holds no help flag never ends on stdout or in completion output (QuietLaws.v, mutual induction over the "
          "parser: every failure handed outward by a subcommand is a stderr failure). That a real "
          "process behaves so cannot be a theorem (write(2), buffering, process::exit live in the OS): it is established by the "
@@ -235,7 +237,7 @@ CHECKS = {
          "Message::render (Model/Message.v) built there (None = a panic of the rendering: index out of range, unwrap of None, "
          "panicking set_scope -- impossible). "
          "C04_flat_fragment_total / C04_flat_level_total: the same through the token-list interpreter. NOT theorems: adjacent "
-         "groups with `any`, subcommands or nested groups as members, or without a first "
+         "groups with subcommands as members, or without a first "
          "item (retry loop fuelled; FUEL and the panic sites are explicit outcomes compared with the implementation; one class "
          "is a known finding, two were repaired by fix: commits), the panic sites "
          "of completion (compared per run; one repaired), purity (by construction in Gallina; tied by re-running). "
